@@ -209,7 +209,8 @@ pub fn build(lang: NLang, dir: &Path, stem: &str, src: &str, profile: &str) -> R
         }
         NLang::Cpp => {
             let mut c = Command::new("g++-12");
-            c.args(["-std=c++20", "-O1", "-fPIC", "-shared", "-fsanitize=undefined", "-fno-sanitize-recover=all", "-w"]);
+            // -fpermissive: a pointer -> int32_t cast is ill-formed only because native pointers are 64 bits wide
+            c.args(["-std=c++20", "-O1", "-fPIC", "-shared", "-fsanitize=undefined", "-fno-sanitize-recover=all", "-fpermissive", "-w"]);
             c.arg("-o").arg(&lib).arg(&srcp);
             run(&mut c)?
         }
